@@ -20,8 +20,15 @@ type ChannelListener struct {
 	stop    context.CancelFunc
 }
 
-func (ln *ChannelListener) SendToChannel(conn net.Conn) {
-	ln.channel <- conn
+// SendToChannel hands conn to Accept. It returns an error instead of blocking
+// forever when the listener has been closed and nobody accepts any more.
+func (ln *ChannelListener) SendToChannel(conn net.Conn) error {
+	select {
+	case ln.channel <- conn:
+		return nil
+	case <-ln.context.Done():
+		return ln.context.Err()
+	}
 }
 
 func (ln *ChannelListener) Accept() (net.Conn, error) {
